@@ -1822,6 +1822,12 @@ impl<'a> Harness<'a> {
 			}
 			return "dry_ok".into();
 		}
+		// Every second real mine whose mineable set the reference rules accept goes the miner's own way: the node's
+		// block-template builder (servers/src/mining/mine_block.rs::get_block, hook H7) takes the set from the pool,
+		// builds, validates and commits the template itself. It retries for ever on failure, hence the helper thread.
+		if ref_verdict.is_ok() && self.prng.chance(1, 2) {
+			return self.mine_through_the_miner(&head, &txs, fees);
+		}
 		if let Err(e) = b.validate(&head.total_kernel_offset) {
 			return fail(self, "block_validate", eclass(&e), &txs);
 		}
@@ -1855,6 +1861,85 @@ impl<'a> Harness<'a> {
 			}
 			Ok(None) => fail(self, "process_block", "NotHead".into(), &txs),
 			Err(e) => fail(self, "process_block", eclass(&e), &txs),
+		}
+	}
+
+	/// I5 through `mine_block::get_block` (see `mine`). Only called when the reference rules accept the mineable set.
+	fn mine_through_the_miner(&mut self, head: &grin_core::core::BlockHeader, txs: &[Transaction], fees: u64) -> String {
+		use std::sync::mpsc;
+		let (chain, pool, base) = (self.chain.clone(), self.pool.clone(), self.base);
+		let (txc, rxc) = mpsc::channel();
+		std::thread::spawn(move || {
+			init_thread(true);
+			global::set_local_accept_fee_base(base);
+			let r = catch(|| grin_servers::verif_export::get_block(&chain, &pool, None, None));
+			let _ = txc.send(r);
+		});
+		self.run.count("mine_block_get_block_calls", 1);
+		let mut b = match rxc.recv_timeout(StdDuration::from_secs(40)) {
+			Ok(Ok((b, _))) => b,
+			Ok(Err(p)) => {
+				let sig = format!("panic;op=mine_block::get_block;at={}", p.location);
+				self.violation(&sig, &format!("panic: {} at {}", p.message, p.location), json!({}));
+				self.stop = true;
+				return "panic".into();
+			}
+			Err(_) => {
+				self.violation(
+					"I5;clause=mine_block_get_block;err=never_returns",
+					"mine_block::get_block did not return within 40 s although the reference rules accept a block made of the mineable set: the miner retries for ever on a template it cannot build",
+					json!({"mineable": txs.iter().map(tx_summary).collect::<Vec<_>>(), "next_height": head.height + 1}),
+				);
+				// the helper thread spins for ever: this process is of no further use
+				self.run.finish_worker();
+			}
+		};
+		let fail = |h: &mut Self, clause: &str, err: String| -> String {
+			let sig = format!("I5;clause=mine_block:{};err={}", clause, err);
+			h.violation(
+				&sig,
+				&format!("block built by mine_block::get_block from the pool failed at `{}`: {}", clause, err),
+				json!({"mineable": txs.iter().map(tx_summary).collect::<Vec<_>>(), "next_height": head.height + 1}),
+			);
+			format!("FAIL:mine_block:{}:{}", clause, err)
+		};
+		if b.header.prev_hash != head.hash() {
+			return fail(self, "parent", "template_not_on_the_head".into());
+		}
+		let mut want: Vec<Hash> = txs.iter().flat_map(|t| t.kernels().iter().map(|k| k.hash())).collect();
+		let mut got: Vec<Hash> = b.kernels().iter().filter(|k| !k.is_coinbase()).map(|k| k.hash()).collect();
+		want.sort();
+		got.sort();
+		if want != got {
+			return fail(self, "content", format!("{}_of_{}_mineable_kernels", got.len(), want.len()));
+		}
+		let bw = weight_iok(b.inputs().len(), b.outputs().len(), b.kernels().len());
+		if bw > MAX_BLOCK_W {
+			return fail(self, "weight", format!("{}", bw));
+		}
+		let claimed: u64 = b.kernels().iter().filter(|k| k.is_coinbase()).count() as u64;
+		if claimed != 1 {
+			return fail(self, "coinbase_kernels", format!("{}", claimed));
+		}
+		skip_pow_proof(&mut b.header, &mut self.prng);
+		self.ledger.add(&b);
+		let bh = b.hash();
+		let n_txs = txs.len();
+		let _ = fees;
+		match self.chain.process_block(b, Options::SKIP_POW | Options::MINE | self.base_opts) {
+			Ok(Some(_)) => {
+				self.run.count("mined_blocks_accepted", 1);
+				self.run.count("mined_blocks_built_by_mine_block_get_block_accepted", 1);
+				if n_txs > 0 {
+					self.run.count("mined_blocks_accepted_nonempty", 1);
+					self.run.count("mined_blocks_built_by_mine_block_get_block_accepted_nonempty", 1);
+					self.run.count("mined_txs", n_txs as u64);
+				}
+				self.block_txs.insert(bh, txs.to_vec());
+				format!("accepted_via_miner:{}", if n_txs == 0 { "empty" } else if n_txs < 4 { "few" } else { "many" })
+			}
+			Ok(None) => fail(self, "process_block", "NotHead".into()),
+			Err(e) => fail(self, "process_block", eclass(&e)),
 		}
 	}
 
@@ -2530,6 +2615,7 @@ fn main() {
 	run.require("admitted_to_stempool", c("admitted_to_stempool"), 20 * scale);
 	run.require("mined_blocks_accepted", c("mined_blocks_accepted"), 25 * scale);
 	run.require("mined_blocks_accepted_nonempty", c("mined_blocks_accepted_nonempty"), 15 * scale);
+	run.require("mined_blocks_built_by_mine_block_get_block_accepted_nonempty", c("mined_blocks_built_by_mine_block_get_block_accepted_nonempty"), 5 * scale);
 	run.require("foreign_blocks_accepted", c("foreign_blocks_accepted"), 40 * scale);
 	run.require("reorgs", c("reorgs"), 10 * scale);
 	run.require("reorgs_to_lower_height", c("reorgs_to_lower_height"), 2 * scale);
